@@ -9,7 +9,9 @@ Schemas
      two transitive properties (Near; Anc with sub-property Parent and inverse Desc), a role taker (R plays A,
      RBottom < Bottom lives on the role, its super-properties on the role taker) and an inverse that is itself a
      sub-property (Owns <-> OwnedBy < LinkedTo: the super-property is reachable only from an inferred relation);
-     the role has a super-property field of its own (R.rright: Right) besides the ones on its role taker
+     the role has a super-property field of its own (R.rright: Right) besides the ones on its role taker; an
+     inverse pair (Holds <-> HeldBy) whose classes also carry a field for a strict super-property of the inverse,
+     named before resp. after the inverse field, and a role with only that super-property field
   L  harness-defined, for C16: a list field and a set field with super-property and inverse, not transitive
 
 Harness classes use identity equality and hash to their index, so that `make_set` iterates in ascending index
@@ -149,6 +151,8 @@ def _declare_d():
         parent: List[PdA] = field(default_factory=list)
         desc: Set[PdA] = field(default_factory=set)
         owns: List[PdB] = field(default_factory=list)
+        holds: List[PdB] = field(default_factory=list)
+        zholds_any: Set[PdB] = field(default_factory=set)
 
         def __hash__(self):
             return self.idx
@@ -159,6 +163,8 @@ def _declare_d():
         top_inv: List[PdA] = field(default_factory=list)
         owned_by: List[PdA] = field(default_factory=list)
         linked_to: Set[PdA] = field(default_factory=set)
+        held_by: List[PdA] = field(default_factory=list)
+        aheld_any: Set[PdA] = field(default_factory=set)
 
         def __hash__(self):
             return self.idx
@@ -169,6 +175,7 @@ def _declare_d():
         idx: int = 0
         rbottom: PdB = None
         rright: List[PdB] = field(default_factory=list)
+        rholds_any: List[PdB] = field(default_factory=list)
 
         def __hash__(self):
             return self.idx
@@ -236,6 +243,28 @@ def _declare_d():
         def get_inverse(cls):
             return OwnedBy
 
+    # an inverse pair whose two sides each ALSO have a field for a strict super-property of the inverse on the same
+    # class, once named before and once after the inverse field (whatever order the class diagram lists associations
+    # in, one of them precedes its inverse field); and a role that has only the super-property field while the
+    # inverse field itself lives on its role taker
+    @dataclass
+    class HoldsAny(PropertyDescriptor): ...
+
+    @dataclass
+    class HeldAny(PropertyDescriptor): ...
+
+    @dataclass
+    class Holds(HoldsAny, HasInverseProperty):
+        @classmethod
+        def get_inverse(cls):
+            return HeldBy
+
+    @dataclass
+    class HeldBy(HeldAny, HasInverseProperty):
+        @classmethod
+        def get_inverse(cls):
+            return Holds
+
     PdA.top = Top(PdA, "top")
     PdA.left = Left(PdA, "left")
     PdA.right = Right(PdA, "right")
@@ -252,11 +281,17 @@ def _declare_d():
     # the role ALSO has a field of its own managed by a direct super-property of RBottom, while the role taker
     # carries the intermediate (Bottom) and the sibling (Left) super-properties, which Right does not imply
     PdR.rright = Right(PdR, "rright")
+    PdA.holds = Holds(PdA, "holds")
+    PdA.zholds_any = HoldsAny(PdA, "zholds_any")
+    PdB.held_by = HeldBy(PdB, "held_by")
+    PdB.aheld_any = HeldAny(PdB, "aheld_any")
+    PdR.rholds_any = HoldsAny(PdR, "rholds_any")
     classes = [PdA, PdB, PdR]
     fields = [(0, "top"), (0, "left"), (0, "right"), (0, "bottom"), (0, "near"), (0, "anc"), (0, "parent"),
-              (0, "desc"), (1, "top_inv"), (2, "rbottom"), (0, "owns"), (1, "owned_by"), (1, "linked_to"), (2, "rright")]
+              (0, "desc"), (1, "top_inv"), (2, "rbottom"), (0, "owns"), (1, "owned_by"), (1, "linked_to"), (2, "rright"),
+              (0, "holds"), (0, "zholds_any"), (1, "held_by"), (1, "aheld_any"), (2, "rholds_any")]
     targets = {0: [1], 1: [1], 2: [1], 3: [1], 4: [0], 5: [0], 6: [0], 7: [0], 8: [0, 2], 9: [1], 10: [1], 11: [0],
-               12: [0], 13: [1]}
+               12: [0], 13: [1], 14: [1], 15: [1], 16: [0, 2], 17: [0], 18: [1]}
     ctor = {0: lambda i, rt: PdA(i), 1: lambda i, rt: PdB(i), 2: lambda i, rt: PdR(rt, i)}
     return SchemaInfo("D", classes, fields, {2: "a"}, ctor, targets)
 
@@ -510,7 +545,7 @@ def _apply_cop(a, name: str, is_set: bool, op, objs) -> None:
 
     k = op[0]
     mk = (lambda xs: set(xs)) if is_set else (lambda xs: list(xs))
-    vals = [objs[int(x)] for x in op[1:]] if k not in ("insert", "setitem", "assignView") else None
+    vals = [objs[int(x)] for x in op[1:]] if k not in ("insert", "setitem", "assignView", "setslice") else None
     if k == "append":
         getattr(a, name).append(vals[0])
     elif k == "add":
@@ -523,6 +558,16 @@ def _apply_cop(a, name: str, is_set: bool, op, objs) -> None:
         getattr(a, name).insert(int(op[1]), objs[int(op[2])])
     elif k == "setitem":
         getattr(a, name)[int(op[1])] = objs[int(op[2])]
+    elif k == "setslice":
+        # a.f[i:j] = value; the value is a list / tuple ("L") or a one-shot iterable: generator / iterator ("G")
+        lo = None if op[1] == "-" else int(op[1])
+        hi = None if op[2] == "-" else int(op[2])
+        xs = [objs[int(x)] for x in op[4:]]
+        if op[3] == "L":
+            value = tuple(xs) if len(xs) % 2 else list(xs)
+        else:
+            value = (x for x in xs) if len(xs) % 2 else iter(xs)
+        getattr(a, name)[lo:hi] = value
     elif k == "assign":
         setattr(a, name, mk(vals))
     elif k == "assignSelf":
